@@ -59,6 +59,16 @@ def coq_prepare():
         open(cp, "w").write(txt)
         sh("coq_makefile -f _CoqProject -o Makefile", cwd=COQ)
 
+def coqchk(props_files):
+    """independent re-check of the compiled property files and everything they depend on (thorough tier); returns (ok, axioms text)"""
+    mods = ["V." + f[:-2] for f in props_files]
+    rc, out = sh(["timeout", "1500", "coqchk", "-o", "-silent", "-Q", ".", "V"] + mods, cwd=COQ)
+    m = re.search(r"\* Axioms:(.*?)\n\s*\n\* Constants/Inductives relying on type-in-type:(.*?)\n\s*\n\* Constants/Inductives relying on unsafe \(co\)fixpoints:(.*?)\n\s*\n\* Inductives whose positivity is assumed:(.*?)\n", out + "\n", re.S)
+    if rc != 0 or not m: return False, "coqchk failed (rc=%d): %s" % (rc, out[-400:])
+    parts = [x.strip() for x in m.groups()]
+    ok = all(x == "<none>" for x in parts[1:])
+    return ok, "axioms: %s; type-in-type: %s; unsafe fixpoints: %s; assumed positivity: %s" % tuple(parts)
+
 def coq_check(pid, props_files, extract_file):
     """Full .vo build of the development, then re-check of the property files with their
     Print Assumptions output captured.  Returns a dict for the evidence."""
@@ -275,6 +285,13 @@ def main(prop, argv):
     known_lines = []
 
     coq = coq_check(pid, prop.COQ_PROPS, getattr(prop, "COQ_EXTRACT", None))
+    if tier == "thorough" and not coq["broken"] and not os.environ.get("VERIF_NO_COQCHK"):
+        ok, txt = coqchk(prop.COQ_PROPS)
+        coq["coqchk"] = txt
+        if not ok: coq["broken"].append("coqchk: " + txt)
+        elif "axioms: <none>" not in txt:
+            for a in re.findall(r"[\w.]+", txt.split(";")[0].replace("axioms:", "")):
+                if a not in coq["axioms"]: coq["axioms"].append(a)
     proof_ok = (not coq["broken"]) and (not coq["forbidden"]) and coq["obligations"] > 0 and coq["discharged"] == coq["obligations"]
     allowed_axioms = set(getattr(prop, "ALLOWED_AXIOMS", []))
     bad_axioms = [a for a in coq["axioms"] if a not in allowed_axioms]
@@ -373,7 +390,8 @@ def main(prop, argv):
         "property_id": pid, "tier": tier, "seed": seed, "level": prop.LEVEL,
         "coverage": {
             "obligations": coq["obligations"], "discharged": coq["discharged"],
-            "checker_cmd": "make -C coq -j16 (coqc 8.16.1, full .vo) ; coqc -Q . V " + " ".join(prop.COQ_PROPS),
+            "checker_cmd": "make -C coq -j16 (coqc 8.16.1, full .vo) ; coqc -Q . V " + " ".join(prop.COQ_PROPS) + (" ; coqchk -o -silent -Q . V " + " ".join("V." + f[:-2] for f in prop.COQ_PROPS) if coq.get("coqchk") else ""),
+            "coqchk": coq.get("coqchk", "not run in this tier (thorough only)"),
             "trusted_base": prop.TRUSTED_BASE + ["Print Assumptions: %d reports, axioms used: %s" %
                                                  (coq.get("assumption_reports", 0), ", ".join(coq["axioms"]) or "none (closed under the global context)")],
             "evaluations": stats["evaluations"], "distinct_nontrivial": len(stats["nontrivial"]),
